@@ -763,7 +763,7 @@ func (ev *Evaluator) instr(env map[ssa.Value]Val, in ssa.Value) (Val, error) {
 			lo, ok1 := bound(in.Low, 0)
 			hi, ok2 := bound(in.High, int64(len(sv.Elems)))
 			if ok1 && ok2 && 0 <= lo && lo <= hi && hi <= int64(len(sv.Elems)) {
-				return &SliceV{Elems: sv.Elems[lo:hi]}, nil
+				return &SliceV{Elems: sv.Elems[lo:hi], Cut: hi < int64(len(sv.Elems))}, nil
 			}
 		}
 		// subject[loc[2k]:loc[2k+1]] with loc the offset vector of a match on the same subject: capture k of the
@@ -1515,6 +1515,11 @@ func (ev *Evaluator) call(env map[ssa.Value]Val, in *ssa.Call) (Val, error) {
 		}
 		// append of modelled elements to a modelled slice: the concatenation (fresh cells: append never writes through
 		// the elements it was given)
+		if callee.Name() == "append" && len(args) >= 1 {
+			if a, ok := args[0].(*SliceV); ok && a.Cut {
+				return nil, &Undecided{in.Pos(), "append onto a re-slice that stops short of its operand's end rewrites the operand's elements in place, which the evaluation by value does not follow"}
+			}
+		}
 		if callee.Name() == "append" && len(args) == 2 {
 			if a, ok := args[0].(*SliceV); ok {
 				if b, ok := args[1].(*SliceV); ok {
@@ -1526,6 +1531,19 @@ func (ev *Evaluator) call(env map[ssa.Value]Val, in *ssa.Call) (Val, error) {
 						out.Elems = append(out.Elems, &Cell{V: c.V, Name: c.Name})
 					}
 					return out, nil
+				}
+			}
+		}
+		// append onto a re-slice that stops short of its operand's end (x[:0], x[a:b]) writes into x's own elements
+		// when the capacity allows: the evaluator keeps x by value and cannot follow that (a fresh make is no such x)
+		if callee.Name() == "append" && len(args) >= 1 {
+			if t, ok := args[0].(Term); ok && strings.HasPrefix(t.Fn, "slice[") && !strings.HasSuffix(t.Fn, ":]") && len(t.Args) >= 1 {
+				fresh := false
+				if p, ok := t.Args[0].(Ptr); ok && p.Cell != nil && strings.HasPrefix(p.Cell.Name, "makeslice") {
+					fresh = true
+				}
+				if !fresh {
+					return nil, &Undecided{in.Pos(), "append onto " + t.Fn + " of an existing slice rewrites that slice's elements in place, which the evaluation by value does not follow"}
 				}
 			}
 		}
@@ -1636,8 +1654,26 @@ func (ev *Evaluator) apply(fn *ssa.Function, args []Val, pos token.Pos) (Val, er
 		}
 		// a function outside the module that is handed a slice the evaluator keeps by value may rewrite it in place
 		// (sort.Slice, rand.Shuffle, io.ReadFull): unless it is known to only read, the evaluation stops here
-		for _, a := range args {
-			if _, modelled := a.(*SliceV); modelled && !readsOnly(key) {
+		for i, a := range args {
+			_, modelled := a.(*SliceV)
+			// … also a slice-typed value the evaluator carries as a term, and one boxed into an interface
+			// (sort.Slice(b, less)): by the callee's parameter type, or the dynamic type of the boxed value
+			if !modelled {
+				if ifc, ok := a.(Iface); ok && ifc.Dyn != nil {
+					_, modelled = ifc.Dyn.Underlying().(*types.Slice)
+				} else if sig := fn.Signature; sig != nil {
+					pi := i
+					if sig.Recv() != nil {
+						pi = i - 1
+					}
+					if pi >= 0 && pi < sig.Params().Len() {
+						if _, isConst := a.(Const); !isConst {
+							_, modelled = sig.Params().At(pi).Type().Underlying().(*types.Slice)
+						}
+					}
+				}
+			}
+			if modelled && !readsOnly(key) {
 				return nil, &Undecided{pos, "a slice kept by value is handed to " + key + ", which may rewrite it in place"}
 			}
 		}
